@@ -118,12 +118,23 @@ def gen_case(seed, tier, opts=None):
             spec['efile'] = spec['ofile']
     if g.chance(0.04):
         faults['mailfail'] = 'ENOENT'
+    case_limit = None
+    if g.chance(0.3):
+        # a time limit the job stays within; it bounds the job, not the delivery of its mail afterwards
+        total = sum(st[1] for st in steps if st[0] == 's')
+        case_limit = int(total + 1) + g.pick([1, 3, 10, 60])
+    if g.chance(0.3):
+        # a synchronous delivery (sendmail -odi) that takes a while
+        faults['maildelay'] = g.pick([0.5, 2, 15, 90])
     if g.chance(0.03):
         faults['spawnfail'] = 'EAGAIN'
     rfrag = g.pick([None, [1], [7, 100], [4096], [64]])
-    return {'v': 1, 'engine': 'simx', 'property': 'C13', 'seed': seed, 'start': t0, 'row': ROWS.index(row),
+    case = {'v': 1, 'engine': 'simx', 'property': 'C13', 'seed': seed, 'start': t0, 'row': ROWS.index(row),
             'spec': spec, 'flags': flags, 'steps': steps, 'faults': faults, 'rfrag': rfrag,
             'ifile_content': 'input data\n' * g.rint(1, 5)}
+    if case_limit:
+        case['limit_line'] = 'DURATION:PT%dS' % case_limit
+    return case
 
 
 def vtodo_text(case):
